@@ -705,7 +705,19 @@ impl<'a> Exec<'a> {
                     }
                 }
             }
+            // one stage in three writes its archive to standard output (`-o -`): what comes out of the pipe
+            // IS the archive of this stage for everything that follows
+            let to_stdout = (fnv(st.out.as_bytes()) as usize + si) % 3 == 0;
+            if to_stdout {
+                if let Some(i) = args.iter().position(|a| a == "-o") { args[i + 1] = s("-"); }
+                self.rep.count("output:stdout");
+            } else {
+                self.rep.count("output:file");
+            }
             let out = self.run(&args);
+            if to_stdout && out.ok() {
+                std::fs::write(self.abs(&format!("w/{}", st.out)), &out.stdout).expect("archive from stdout");
+            }
             if si == 0 && out.ok() {
                 // `create` prints each added name on stderr: record the order for replays
                 let text = String::from_utf8_lossy(&out.stderr).into_owned();
